@@ -11,6 +11,8 @@
 (*   handle  "open" | "closed"       the library's current handle            *)
 (*   detect  replug detection enabled                                        *)
 (*   armed   the next close() of a handle will fail (fault injection)        *)
+(*   oarmed  the next open() of the node will fail (fault injection); a       *)
+(*           failed re-open leaves handle = "none": no OS handle, not closed   *)
 (*   live    number of OS handles the library holds open (0..2)              *)
 (*   sent    through which handle the last execute sent: none/current/stale  *)
 (*   out     "ok" | "error" outcome of the last library call                 *)
@@ -21,7 +23,7 @@
 (***************************************************************************)
 EXTENDS Naturals, FiniteSets, TLC
 
-EnvActs == {"replug", "unplug", "plug", "arm"}
+EnvActs == {"replug", "unplug", "plug", "arm", "armopen"}
 LibActs == {"exec", "close", "exit_ok", "exit_exc"}
 Acts == EnvActs \cup LibActs
 
@@ -31,32 +33,36 @@ Succ(s, a) ==
       [] a = "unplug" -> IF s.node = "present" THEN {[s EXCEPT !.node = "absent", !.fresh = FALSE]} ELSE {}
       [] a = "plug"   -> IF s.node = "absent" THEN {[s EXCEPT !.node = "present", !.fresh = FALSE]} ELSE {}
       [] a = "arm"    -> IF ~s.armed /\ s.handle = "open" THEN {[s EXCEPT !.armed = TRUE]} ELSE {}
+      [] a = "armopen" -> IF s.detect /\ ~s.oarmed /\ s.handle # "closed" THEN {[s EXCEPT !.oarmed = TRUE]} ELSE {}
       [] a = "exec" ->
-            IF s.handle # "open" THEN {}
+            IF s.handle = "closed" THEN {}
             ELSE IF ~s.detect THEN
                 \* detection off: the original handle is kept, whatever happened to the node
                 {[s EXCEPT !.sent = IF s.fresh THEN "current" ELSE "stale", !.out = "ok"]}
             ELSE IF s.node = "absent" THEN
                 \* a vanished node is an error, nothing is sent, the old handle is not used
                 {[s EXCEPT !.sent = "none", !.out = "error"]}
-            ELSE IF s.fresh THEN {[s EXCEPT !.sent = "current", !.out = "ok"]}
+            ELSE IF s.fresh /\ s.handle = "open" THEN {[s EXCEPT !.sent = "current", !.out = "ok"]}
             ELSE
-                \* replaced: close the stale handle, open a fresh one, then send; if the close
-                \* fails the error may propagate (nothing sent) or be swallowed (sent through the
-                \* fresh handle) - in both cases a fresh handle is open afterwards
-                IF s.armed
+                \* replaced (or the previous re-open failed): close what is there, open a fresh handle, then
+                \* send.  If the OPEN fails nothing is sent, no handle is left (handle = "none") and the next
+                \* execute tries again.  If only the close fails the error may propagate (nothing sent) or be
+                \* swallowed (sent through the fresh handle) - in both cases a fresh handle is open afterwards
+                IF s.oarmed
+                THEN {[s EXCEPT !.handle = "none", !.live = 0, !.armed = FALSE, !.oarmed = FALSE, !.sent = "none", !.out = "error"]}
+                ELSE IF s.armed
                 THEN {[s EXCEPT !.fresh = TRUE, !.armed = FALSE, !.sent = "none", !.out = "error"],
                       [s EXCEPT !.fresh = TRUE, !.armed = FALSE, !.sent = "current", !.out = "ok"]}
-                ELSE {[s EXCEPT !.fresh = TRUE, !.sent = "current", !.out = "ok"]}
+                ELSE {[s EXCEPT !.fresh = TRUE, !.handle = "open", !.live = 1, !.sent = "current", !.out = "ok"]}
       [] a \in {"close", "exit_ok", "exit_exc"} ->
-            IF s.handle # "open" THEN {}
-            ELSE {[s EXCEPT !.handle = "closed", !.live = 0, !.sent = "none", !.armed = FALSE,
+            IF s.handle = "closed" THEN {}
+            ELSE {[s EXCEPT !.handle = "closed", !.live = 0, !.sent = "none", !.armed = FALSE, !.oarmed = FALSE,
                             !.out = IF s.armed THEN "error" ELSE "ok"]}
 
 VARIABLE s
 
 Init == s \in {[node |-> "present", fresh |-> TRUE, handle |-> "open", detect |-> d, armed |-> FALSE,
-                live |-> 1, sent |-> "none", out |-> "ok", act |-> "open", mode |-> m, hmode |-> m] : d \in BOOLEAN, m \in {"ro", "rw"}}
+                live |-> 1, sent |-> "none", out |-> "ok", act |-> "open", mode |-> m, hmode |-> m, oarmed |-> FALSE] : d \in BOOLEAN, m \in {"ro", "rw"}}
 \* `act` remembers which action led to the state, so that properties of "the last execute"
 \* can be stated as state invariants
 Step(a) == s' \in {[t EXCEPT !.act = a] : t \in Succ(s, a)}
@@ -64,11 +70,12 @@ Replug == Step("replug")
 Unplug == Step("unplug")
 Plug == Step("plug")
 Arm == Step("arm")
+ArmOpen == Step("armopen")
 Exec == Step("exec")
 Close == Step("close")
 ExitOk == Step("exit_ok")
 ExitExc == Step("exit_exc")
-Next == Replug \/ Unplug \/ Plug \/ Arm \/ Exec \/ Close \/ ExitOk \/ ExitExc
+Next == Replug \/ Unplug \/ Plug \/ Arm \/ ArmOpen \/ Exec \/ Close \/ ExitOk \/ ExitExc
 Spec == Init /\ [][Next]_s
 
 NoStaleSend == s.sent = "stale" => ~s.detect
@@ -81,7 +88,10 @@ FreshAfterExec == s.act = "exec" /\ s.detect /\ s.out = "ok" => s.fresh /\ s.sen
 \* with detection off the handle is never exchanged
 DetectionOffKeepsHandle == s.act = "exec" /\ ~s.detect => s.out = "ok" /\ s.sent \in {"current", "stale"}
 \* closing a stale handle that fails still leaves a fresh handle open
-ReopenedEvenIfCloseFails == s.act = "exec" /\ s.detect /\ s.node = "present" => s.fresh /\ s.handle = "open"
+ReopenedEvenIfCloseFails == s.act = "exec" /\ s.detect /\ s.node = "present" =>
+                                (s.fresh /\ s.handle = "open") \/ (s.out = "error" /\ s.handle = "none" /\ s.sent = "none")
+\* a failed re-open is an error that sends nothing, and nothing is ever sent without a handle
+NothingWithoutHandle == s.handle = "none" => s.live = 0 /\ s.sent = "none" /\ ~s.fresh
 \* every handle the library holds was opened with the access the caller asked for (no successor changes hmode)
 ReopenedAsRequested == s.hmode = s.mode
 =============================================================================
